@@ -96,6 +96,7 @@ func (g *schemaGen) refObjectRequired(depth int) M {
 	g.ncomp++
 	name := fmt.Sprintf("C%d", g.ncomp)
 	o := g.object(depth, false)
+
 	o["properties"].(M)["base_id"] = Prim("string", "")
 	o["required"] = L{"base_id"}
 	g.d.Comp("schemas", name, o)
@@ -120,7 +121,10 @@ func (g *schemaGen) oneOf(depth int, disc bool) M {
 		o["required"] = req
 		g.d.Comp("schemas", name, o)
 		members = append(members, Ref("schemas", name))
-		mapping[fmt.Sprintf("k%d", i)] = "#/components/schemas/" + name
+		if i == 0 || g.rng.Intn(3) != 0 {
+			// explicit keys for some members only (the others are addressed by their schema name)
+			mapping[fmt.Sprintf("k%d", i)] = "#/components/schemas/" + name
+		}
 	}
 	s := M{"oneOf": members}
 	if disc {
@@ -240,6 +244,20 @@ func SchemaCases(seed int64, nRandom int, withMatrix bool) []Case {
 			c.Flags = Flags{Client: true}
 			out = append(out, c)
 		}
+	}
+	{
+		// fixed: an allOf whose $ref member keeps additional properties itself
+		d := NewDoc("allof-addl")
+		base := Obj([]string{"base_id"}, M{"base_id": Prim("string", ""), "note": Prim("string", "")})
+		base["additionalProperties"] = true
+		d.Comp("schemas", "Base", base)
+		d.Comp("schemas", "Root", M{"allOf": L{Ref("schemas", "Base"), Obj([]string{"own"}, M{"own": Prim("string", ""), "n": Prim("integer", "int64")})}})
+		d.Op("/t", "post", M{
+			"requestBody": M{"required": true, "content": JSONContent(Ref("schemas", "Root"))},
+			"responses":   M{"200": Resp("ok", Ref("schemas", "Root")), "default": M{"description": "e"}},
+		})
+		id := "schema-fixed-allof-member-with-additional-properties"
+		out = append(out, Case{ID: id, Family: "schema", Spec: d.Root, Flags: Flags{Client: true}, Safe: false, Label: map[string]string{"set": id}})
 	}
 	rng := rand.New(rand.NewSource(seed*977 + 3))
 	for i := 0; i < nRandom; i++ {
